@@ -11,7 +11,7 @@
      for every i: fsync(fd_i)            (ssync)
      for every i: close(fd_i)            (sclose)
      for every i: open("c_i.tmp", O_RDONLY); read to end of file; compare the stored and the computed crc with the
-                  crc computed while writing; any mismatch: exit(EXIT_FAILURE) after all threads joined
+                  crc computed while writing (one thread per copy);  join loop: if ANY thread failed: exit(EXIT_FAILURE)
      for every i: rename("c_i.tmp", "c_i")
 
    The same sequence is observed on the real binary by harness/c/c09_shim.c on every run (check_C09.py compares the
@@ -42,7 +42,7 @@ Inductive op : Type :=
 | Write (p : path) (chunk : bstr)   (* write() on the descriptor opened on p: appends *)
 | Fsync (p : path)
 | Close (p : path)
-| Verify (p : path) (crc : N)       (* state_verify_thread on p; a failure makes the command exit *)
+| VerifyJoin (ps : list path) (crc : N)   (* state_verify_content: one state_verify_thread per path, then the join loop *)
 | Rename (src dst : path).          (* rename(): atomic replacement of dst *)
 
 (* sdeplete(): the last four bytes of the file, zeros shifted in from the front when it is shorter *)
@@ -62,6 +62,15 @@ Definition verify_ok (d : bstr) (crc : N) : bool :=
   let crc_stored := le32_of buf in
   (crc_stored =? crc) && (crc32c_spec 0 d =? crc32c_spec crc_stored buf).
 
+(* the outcome of the verification threads, one boolean per copy (true = that thread returned 0) *)
+Definition verify_results (f : path -> option bstr) (ps : list path) (crc : N) : list bool :=
+  map (fun p => match f p with Some d => verify_ok d crc | None => false end) ps.
+(* the join loop:   fail = 0;  for every copy { thread_join(&retval); if (retval) fail = 1; else sclose(f); }  if (fail) exit
+   EVERY result counts.  (A loop that assigned `fail = retval != 0` would keep only the last one: join_fail_last below,
+   which is NOT what the model uses; SaveProofs.mutant_join_misses shows the difference.) *)
+Definition join_fail (rs : list bool) : bool := existsb negb rs.
+Definition join_fail_last (rs : list bool) : bool := negb (last rs true).
+
 (* one completed call; None = the call fails and the command stops with exit(EXIT_FAILURE) *)
 Definition step (f : fsys) (o : op) : option fsys :=
   match o with
@@ -70,7 +79,7 @@ Definition step (f : fsys) (o : op) : option fsys :=
   | Write p c => match f p with Some d => Some (upd f p (Some (d ++ c))) | None => None end
   | Fsync p => Some f
   | Close p => Some f
-  | Verify p crc => match f p with Some d => if verify_ok d crc then Some f else None | None => None end
+  | VerifyJoin ps crc => if join_fail (verify_results f ps crc) then None else Some f
   | Rename s d => match f s with Some x => Some (upd (upd f d (Some x)) s None) | None => None end
   end.
 
@@ -81,40 +90,46 @@ Fixpoint exec (f : fsys) (ops : list op) : option fsys :=
   | o :: t => match step f o with Some f' => exec f' t | None => None end
   end.
 
-(* the operation list of state_write for the content list cs, the flushes `chunks` and the writer's crc *)
+(* the operation list of state_write for the content list cs, the flushes `chunks` and the writer's crc.
+   A flush is a function copy -> bytes: what the write() of that flush stored in the temporary of that copy.  The writer hands
+   the same buffer to every copy ([uniform]); a write fault (bit rot in the buffer between two write() calls, a short write
+   reported as complete, a bad disk) makes them differ, which is exactly what the verification is there to catch. *)
+Definition flush := nat -> bstr.
+Definition uniform (chunks : list bstr) : list flush := map (fun c (_ : nat) => c) chunks.
+Definition landed (chunks : list flush) (i : nat) : bstr := concat (map (fun ch => ch i) chunks).
 Definition prepare_ops (cs : list nat) : list op := flat_map (fun i => [Unlink (Tmp i); CreateExcl (Tmp i)]) cs.
-Definition flush_ops (cs : list nat) (chunk : bstr) : list op := flat_map (fun i => [Write (Tmp i) chunk]) cs.
-Definition write_ops (cs : list nat) (chunks : list bstr) : list op := flat_map (flush_ops cs) chunks.
+Definition flush_ops (cs : list nat) (chunk : flush) : list op := flat_map (fun i => [Write (Tmp i) (chunk i)]) cs.
+Definition write_ops (cs : list nat) (chunks : list flush) : list op := flat_map (flush_ops cs) chunks.
 Definition fsync_ops (cs : list nat) : list op := flat_map (fun i => [Fsync (Tmp i)]) cs.
 Definition close_ops (cs : list nat) : list op := flat_map (fun i => [Close (Tmp i)]) cs.
-Definition verify_ops (cs : list nat) (crc : N) : list op := flat_map (fun i => [Verify (Tmp i) crc]) cs.
+Definition verify_ops (cs : list nat) (crc : N) : list op := [VerifyJoin (map Tmp cs) crc].
 Definition rename_ops (cs : list nat) : list op := flat_map (fun i => [Rename (Tmp i) (Content i)]) cs.
 
-Definition before_rename_ops (cs : list nat) (chunks : list bstr) (crc : N) : list op :=
+Definition before_rename_ops (cs : list nat) (chunks : list flush) (crc : N) : list op :=
   prepare_ops cs ++ write_ops cs chunks ++ fsync_ops cs ++ close_ops cs ++ verify_ops cs crc.
 
-Definition save_ops (cs : list nat) (chunks : list bstr) (crc : N) : list op :=
+Definition save_ops (cs : list nat) (chunks : list flush) (crc : N) : list op :=
   before_rename_ops cs chunks crc ++ rename_ops cs.
 
 (* what state_write_thread hands to the stream: the covered part P (header .. 'N') in flushes, then the crc *)
-Definition writer_chunks (flushes : list bstr) : list bstr :=
-  flushes ++ [sputble32 (crc32c_spec 0 (concat flushes))].
+Definition writer_chunks (flushes : list bstr) : list flush :=
+  uniform (flushes ++ [sputble32 (crc32c_spec 0 (concat flushes))]).
 Definition writer_crc (flushes : list bstr) : N := crc32c_spec 0 (concat flushes).
 
 (* rendering for the correspondence with the system-call log: (call, copy index, byte count) *)
 Inductive call : Type := CUnlink | COpenExcl | CWrite | CFsync | CClose | CVerify | CRename.
 Definition nidx (p : path) : N := N.of_nat (match p with Content i => i | Tmp i => i | Other n => n end).
 Definition nlen (c : bstr) : N := N.of_nat (length c).
-Definition render (o : op) : call * N * N :=
+Definition render (o : op) : list (call * N * N) :=
   match o with
-  | Unlink p => (CUnlink, nidx p, 0)
-  | CreateExcl p => (COpenExcl, nidx p, 0)
-  | Write p c => (CWrite, nidx p, nlen c)
-  | Fsync p => (CFsync, nidx p, 0)
-  | Close p => (CClose, nidx p, 0)
-  | Verify p _ => (CVerify, nidx p, 0)
-  | Rename s _ => (CRename, nidx s, 0)
+  | Unlink p => [(CUnlink, nidx p, 0)]
+  | CreateExcl p => [(COpenExcl, nidx p, 0)]
+  | Write p c => [(CWrite, nidx p, nlen c)]
+  | Fsync p => [(CFsync, nidx p, 0)]
+  | Close p => [(CClose, nidx p, 0)]
+  | VerifyJoin ps _ => map (fun p => (CVerify, nidx p, 0)) ps
+  | Rename s _ => [(CRename, nidx s, 0)]
   end.
 (* the calls of one save with `ncopies` content lines whose flushes have the given sizes (the bytes do not matter) *)
 Definition save_calls (ncopies : N) (chunk_sizes : list N) : list (call * N * N) :=
-  map render (save_ops (seq 0 (N.to_nat ncopies)) (map (fun n => repeat 0 (N.to_nat n)) chunk_sizes) 0).
+  flat_map render (save_ops (seq 0 (N.to_nat ncopies)) (uniform (map (fun n => repeat 0 (N.to_nat n)) chunk_sizes)) 0).
